@@ -1,4 +1,5 @@
 (* C16 — meta encoding. Property theorems only; proofs live in Meta/Thms.v. *)
+From V Require Import Meta.Accept.
 From V Require Import Flate.Spec XFlate.Reader XFlate.RoundTripStmt Meta.Stream Meta.Search Meta.Deflate Meta.DeflateStream.
 From V Require Import Base.Prelude Base.Prog Meta.Model Meta.Thms.
 From V Require Import Meta.RoundTrip.
@@ -101,3 +102,17 @@ Print Assumptions meta_final_stream_payload_is_a_complete_empty_deflate_stream.
 Theorem meta_reverse_search_finds_the_trailing_block : reverse_search_finds_block_stmt.
 Proof. exact reverse_search_finds_block. Qed.
 Print Assumptions meta_reverse_search_finds_the_trailing_block.
+
+(* THE CONVERSE: whatever the meta decoder ACCEPTS - not only what the encoder writes - is, for
+   the RFC 1951 decoder model, an empty block ending at the same bit, final iff FinalStream,
+   at any position and after any history *)
+Theorem meta_accepted_block_is_an_empty_deflate_block :
+  forall depth bits pos out len buf final s',
+    run decode_block (mkAst bits pos out len) = Done (BBlock buf final) s' ->
+    a_out s' = out /\ a_len s' = len /\ a_pos s' mod 8 = 0 /\
+    (exists c, bits = c ++ a_in s' /\ c <> [] /\ a_pos s' = pos + N.of_nat (length c)) /\
+    forall out2 len2,
+      run (one_block depth) (mkAst bits pos out2 len2) =
+      Done (fmode_eqb final FinalStream) (mkAst (a_in s') (a_pos s') out2 len2).
+Proof. exact meta_accept_block_is_empty_deflate. Qed.
+Print Assumptions meta_accepted_block_is_an_empty_deflate_block.
